@@ -33,6 +33,8 @@ sh("rsync -a --delete --exclude work --exclude .git --exclude __pycache__ --excl
 ct = re.sub(r'path = "[^"]*/yarel"', 'path = "%s/yarel"' % wt, open(clone + "/harness/Cargo.toml").read())
 open(clone + "/harness/Cargo.toml", "w").write(ct)
 sh("git checkout -q -- yarel yarel-cli", cwd=wt)
+# the scratch worktree follows /repo's HEAD (hook commits made after the worktree was created)
+sh("git checkout -q --detach %s" % sh("git -C /repo rev-parse HEAD")[1].strip(), cwd=wt)
 rc, o, e = sh("git apply %s/patch.diff" % md, cwd=wt)
 assert rc == 0, e
 res = {"mutant": "%s/%s" % (pid, m), "checks": {}}
